@@ -73,7 +73,10 @@ func init() {
 		return c14Auths(ra) + ";" + c14Auths(rb)
 	})
 	register("ParsePGAuthID", func(a []string) string {
-		return withBuf(a[0], a[1], func(b []byte) string { return c14Auths(pgdump.ParsePGAuthID(b)) })
+		return withBuf(a[0], a[1], func(b []byte) string {
+			r := pgdump.ParsePGAuthID(b)
+			return held(func() string { return c14Auths(r) })
+		})
 	})
 
 	// every library entry point on the same data directory
